@@ -685,4 +685,10 @@ theorem vsub_left_cancel : ∀ (a b c : Vec), a.length = b.length → a.length =
         subst this
         congr 1; grind
 
+theorem vsub_self : ∀ (a : Vec), vsub a a = List.replicate a.length 0 := by
+  intro a
+  induction a with
+  | nil => rfl
+  | cons x xs ih => simp [vsub, ih, List.replicate_succ]; grind
+
 end NutilsVerif.C14
